@@ -116,6 +116,10 @@ class NoLossOracle(HOracle):
                     if t == b"D":
                         continue
                     r = byoff.get(off)
+                    if r is not None and not r.final() and self.ledger.expire_if_dying(m, r):
+                        # Z in a dying pass whose mark could not be written (injected fault): a failure, and rule (c)
+                        # below demands the notice for it
+                        self.res.counters.inc("expired_unmarked_at_unlink")
                     if r is not None and r.final():
                         # reported K or D but the one-byte mark could not be written (injected write/open
                         # fault: "trouble marking ... will be delivered twice"): the recipient is accounted for
@@ -135,6 +139,8 @@ class NoLossOracle(HOracle):
             self.ledger.scan_recs(sim)
             self.res.counters.inc("message_removals_checked")
             for r in m.all_rcpts():
+                if not r.final() and not r.marked:
+                    self.ledger.expire_if_dying(m, r)
                 if not r.final() or not r.marked:
                     # marks can be reverted by a lose-unsynced crash; what matters is the report
                     if not r.final():
@@ -619,6 +625,22 @@ class RetryOracle(HOracle):
         return due
 
     def on_step(self, ev, sim):
+        # the converse of expiry: a temporary failure of a message that is not older than the lifetime (as of the
+        # opening of its latest pass) must stay a deferral; the daemon shows its decision by writing the mark
+        if ev.get("c") == "write" and ev.get("len") == 1 and ev.get("data") == "44" and ev.get("ret") == 1 \
+                and ev.get("rcpt") is not None and ev.get("msg") is not None and qparts(ev)[0] in ("local", "remote"):
+            self.res.counters.inc("marks_seen")
+            if ev.get("last_report_before_mark") == "Z":
+                if ev.get("expired"):
+                    self.res.counters.inc("expired_deferrals_made_permanent")
+                else:
+                    m, r = ev["msg"], ev["rcpt"]
+                    opens = [po[-1] for po in m.pass_open.values() if po]
+                    age = (max(opens, key=lambda x: x[2])[0] - m.birth) if opens and m.birth is not None else None
+                    self.violate("C15/temporary-failure-made-permanent-before-lifetime",
+                                 "recipient %r of message %d answered Z in a pass opened at age %s (lifetime %d) was marked done" % (
+                                     r.addr, m.num, age, self.h.lifetime))
+            return
         # earliest-due first: a pass opens while nothing at all is outstanding on its channel (so every other
         # message of the channel waits in the schedule): no waiting message may have an earlier due time
         if ev.get("c") != "openr" or ev.get("prog") != "qmail-send" or ev.get("ret", -1) < 0:
